@@ -130,12 +130,18 @@ def gen_strings(tier):
     # powers with the exponents an optimiser likes to special-case (sqrt, reciprocal, square, unit, zero), in every
     # operator context on either side
     for base in ("Tgas", "(Tgas/3d2)", "2d0", "n(idx_H)", "foo"):
-        for ex in ("0.5", "0.5d0", "(-0.5)", "(-0.5d0)", "1", "(-1)", "2", "(-2)", "0", "1.0d0", "3", "(1d0/2d0)"):
+        for ex in ("0.5", "0.5d0", "(-0.5)", "(-0.5d0)", "1", "(-1)", "2", "(-2)", "0", "1.0d0", "3", "(1d0/2d0)", "(1/3)", "(3/2)", "(1/2)", "( 2 / 3 )", "(5/2)", "(1/2d0)", "(7/2/2)"):
             pw = f"{base}**{ex}"
             for s_ in (pw, f"2d0/{pw}", f"2d0*{pw}", f"{pw}/Tgas", f"Tgas-{pw}", f"{pw}-Tgas", f"3/{pw}/foo", f"exp(-{pw})", f"({pw})**2", f"2d0**{pw}" if base != "2d0" else pw):
                 if s_ not in seen:
                     seen.add(s_)
                     yield s_
+    # quotients of two integer literals (Fortran and C both truncate; a translator must not "repair" them)
+    for q in ("1/3", "3/2", "5/2", "7/2/2", "2/3", "1 / 2"):
+        for s_ in (q, f"({q})", f"{q}*Tgas", f"Tgas*{q}", f"Tgas*({q})", f"({q})*Tgas", f"Tgas**{q}", f"2d0*{q}", f"exp(-{q})", f"exp(-({q})*Tgas/1d2)", f"foo+{q}"):
+            if s_ not in seen:
+                seen.add(s_)
+                yield s_
     # abundance references beyond one-letter species
     for lf in IDX_LEAVES:
         yield lf
